@@ -238,6 +238,19 @@ pub mod cases {
             huge OBJECT IDENTIFIER ::= { uuid-root 329800735698586629295641978511506172918 7 }
             END"],
             checks: &[Has("1u32,2u32,840u32,113549u32,4294967295u32"), Lacks("25u32,0u32"), Lacks("3374214134u32")] },
+        // ---- C05: the components after the marker, and only those, are extension additions — also when the root list uses COMPONENTS OF
+        Case { ob: "C05.cases.additions_are_exactly_the_components_after_the_marker_with_components_of_in_the_root", srcs: &["M DEFINITIONS AUTOMATIC TAGS ::= BEGIN
+            B ::= SEQUENCE { x NULL, y BOOLEAN OPTIONAL }
+            S ::= SEQUENCE { COMPONENTS OF B, a INTEGER, ..., b BOOLEAN }
+            S2 ::= SEQUENCE { a INTEGER, COMPONENTS OF B, ..., b BOOLEAN, c NULL }
+            S3 ::= SEQUENCE { a INTEGER, COMPONENTS OF B, ... }
+            S4 ::= SEQUENCE { a INTEGER, COMPONENTS OF B }
+            S5 ::= SET { COMPONENTS OF B, ..., b BOOLEAN }
+            END"],
+            checks: &[NoWarnings, ItemHas("pubstructS{", "#[rasn(extension_addition)]pubb:bool"), ItemCount("pubstructS{", "extension_addition", 1), ItemHas("pubstructS{", "pubx:()"), ItemHas("pubstructS{", "puba:Integer"),
+                      ItemHas("pubstructS2{", "#[rasn(extension_addition)]pubb:bool,#[rasn(extension_addition)]pubc:()"), ItemCount("pubstructS2{", "extension_addition", 2), ItemHas("pubstructS2{", "puby:Option<bool>"),
+                      ItemCount("pubstructS3{", "extension_addition", 0), AttrsHave("pubstructS3{", "non_exhaustive"), ItemCount("pubstructS4{", "extension_addition", 0),
+                      ItemHas("pubstructS5{", "#[rasn(extension_addition)]pubb:bool"), ItemCount("pubstructS5{", "extension_addition", 1)] },
         // ---- C05: anonymous extensible types declared inside a [[ ]] version group stay extensible
         Case { ob: "C05.cases.anonymous_types_inside_a_version_group_keep_their_own_extensibility", srcs: &["M DEFINITIONS AUTOMATIC TAGS ::= BEGIN
             Report ::= SEQUENCE { id INTEGER, ..., plain CHOICE { x INTEGER, ..., y BOOLEAN },
